@@ -7,6 +7,7 @@ check itself is broken (harness nondeterminism, invalid evidence, crash).
 from __future__ import annotations
 
 import argparse
+import hashlib
 import importlib
 import json
 import os
@@ -56,8 +57,22 @@ def main() -> int:
     except core.HarnessError as exc:
         print(f"HARNESS-ERROR property={pid} {exc}")
         return 2
-    except Exception:
+    except Exception as exc:
+        tb = traceback.format_exc()
         traceback.print_exc()
+        cause = getattr(exc, "__cause__", None)
+        remote = str(cause) if cause is not None else ""
+        frames = [l.strip() for l in (tb + remote).splitlines() if l.strip().startswith('File "/repo/')]
+        if frames:
+            # the code under test raised where the unchanged tree does not (every driver call is one the checks make on every
+            # run): reported as a violation with the traceback as its witness, not as a harness error
+            os.makedirs(f"/verif/replays/{pid}", exist_ok=True)
+            path = f"/verif/replays/{pid}/{hashlib.sha1((tb + remote).encode()).hexdigest()[:10]}.json"
+            with open(path, "w") as fh:
+                json.dump({"property": pid, "signature": f"{pid}/code-under-test-raises/{type(exc).__name__}", "what": f"{type(exc).__name__}: {exc}",
+                           "witness": {"traceback": (tb + remote)[-4000:], "innermost_repo_frame": frames[-1]}, "tier": args.tier, "seed": seed}, fh, indent=1)
+            print(f"VIOLATION property={pid} replay={path}")
+            return 1
         print(f"HARNESS-ERROR property={pid} unexpected exception in check")
         return 2
     return ctx.finish()
